@@ -6,7 +6,9 @@
    "_shipped_refuted": the model of the code AS IT WAS FOUND ([shipped]) violates the statement; the defect has
    been repaired since (the commit is named), the model used by the checks is the repaired variant
    ([repaired], cfg_v1 / cfg_v2), for which the positive "_partial" theorems below are proved; reverting the
-   commit makes the harness report the finding again. *)
+   commit makes the harness report the finding again.
+   "_before_own_close_refuted": the same for the code as it stood before degradeIfCurrent (the closing write of a
+   failed recovery was unconditional; all other repairs in place). *)
 From Verif Require Import Life.RunMap Life.RunMapProofs Life.Witness.
 
 (* ---------------- at_most_one_live_run (both engines, every configuration) ---------------- *)
@@ -55,21 +57,64 @@ Proof. exact blind_delete_calls_v2. Qed.
 Print Assumptions C11_wait_returns_that_runs_result_v2_shipped_refuted.
 
 (* ---------------- status_agrees_with_last_run_end ---------------- *)
-Theorem C11_status_agrees_with_last_run_end_v1_refuted :
-  match final (cfg_v1 true) w_start_in_backoff_v1 with
+(* The code before degradeIfCurrent ([cfg_v?_before_own_close]): a Start admitted while Recovering, then the retries
+   are exhausted: the recovering run's cleanup writes Degraded over the run the user just started. *)
+Theorem C11_status_agrees_with_last_run_end_v1_before_own_close_refuted :
+  match final (cfg_v1_before_own_close true) w_start_in_backoff_v1 with
   | Some s => quiescent s && status_eqb (s_status s) Degraded && is_live (s_runs s 1) && negb (agrees s)
   | None => false
   end = true.
 Proof. exact start_in_backoff_degrades_live_run_v1. Qed.
-Print Assumptions C11_status_agrees_with_last_run_end_v1_refuted.
+Print Assumptions C11_status_agrees_with_last_run_end_v1_before_own_close_refuted.
 
-Theorem C11_status_agrees_with_last_run_end_v2_refuted :
-  match final (cfg_v2 true) w_start_in_backoff_v2 with
+Theorem C11_status_agrees_with_last_run_end_v2_before_own_close_refuted :
+  match final (cfg_v2_before_own_close true) w_start_in_backoff_v2 with
   | Some s => quiescent s && status_eqb (s_status s) Degraded && is_live (s_runs s 1) && negb (agrees s)
   | None => false
   end = true.
 Proof. exact start_in_backoff_degrades_live_run_v2. Qed.
-Print Assumptions C11_status_agrees_with_last_run_end_v2_refuted.
+Print Assumptions C11_status_agrees_with_last_run_end_v2_before_own_close_refuted.
+
+(* the same schedules on the code as it stands: the closing write is skipped, the user's run stays Running *)
+Example C11_start_in_backoff_schedules_repaired :
+  (match final (cfg_v1 true) w_start_in_backoff_v1 with
+   | Some s => quiescent s && status_eqb (s_status s) Running && is_live (s_runs s 1) && agrees s && running_map_ok s
+   | None => false
+   end = true)
+  /\ (match final (cfg_v2 true) w_start_in_backoff_v2 with
+      | Some s => quiescent s && status_eqb (s_status s) Running && is_live (s_runs s 1) && agrees s && running_map_ok s
+      | None => false
+      end = true).
+Proof. exact start_in_backoff_repaired. Qed.
+
+(* A POLITE history of the code before degradeIfCurrent, both engines: the Running write of a recovery restart
+   fails, the restarted run is finalized as Degraded by its own cleanup (742a56e / eff71a0), the user starts the
+   pipeline again on that status, and the recovering run's cleanup - whose nested Start returned the error - writes
+   Degraded a SECOND time, over the new live run. Found by the C11 check on the real services (v2, history shape
+   running-write-fails-at-restart); repaired by degradeIfCurrent. *)
+Theorem C11_status_agrees_second_closing_write_before_own_close_refuted :
+  (match final (cfg_v1_io_before_own_close true) w_stfail_restart_then_start_v1 with
+   | Some s => quiescent s && status_eqb (s_status s) Degraded && is_live (s_runs s 2) && negb (agrees s)
+   | None => false
+   end = true)
+  /\ (match final (cfg_v2_io_before_own_close true) w_stfail_restart_then_start_v2 with
+      | Some s => quiescent s && status_eqb (s_status s) Degraded && is_live (s_runs s 2) && negb (agrees s)
+      | None => false
+      end = true).
+Proof. exact second_degraded_write_over_new_run. Qed.
+Print Assumptions C11_status_agrees_second_closing_write_before_own_close_refuted.
+
+Theorem C11_status_agrees_second_closing_write_repaired_partial :
+  (match final (cfg_v1_io true) w_stfail_restart_then_start_v1 with
+   | Some s => quiescent s && status_eqb (s_status s) Running && is_live (s_runs s 2) && agrees s && running_map_ok s
+   | None => false
+   end = true)
+  /\ (match final (cfg_v2_io true) w_stfail_restart_then_start_v2 with
+      | Some s => quiescent s && status_eqb (s_status s) Running && is_live (s_runs s 2) && agrees s && running_map_ok s
+      | None => false
+      end = true).
+Proof. exact second_degraded_write_skipped_repaired. Qed.
+Print Assumptions C11_status_agrees_second_closing_write_repaired_partial.
 
 (* ---------------- teardown_releases_guards ---------------- *)
 Theorem C11_teardown_releases_guards_v2_shipped_refuted :
@@ -159,7 +204,9 @@ Proof. vm_compute. repeat split; try exact I; intros; discriminate. Qed.
    The arch-v2 engine, REPAIRED (838f9f1 compare-and-delete, 7f15ba5 / 6946e0c failed opens release what they
    took), satisfies the same statements for every polite interleaving.  Proof: inductive invariant
    Life/RunMapInvV2.v (Inv2).  The shipped variant is refuted above (blind delete, leaking opens); without
-   [polite] both engines are still refuted (Start admitted while Recovering, open finding). *)
+   [polite] the default engine is still refuted (C11_running_implies_map_is_live_v1_refuted: Start admitted while
+   Recovering, two runs published; open finding). For arch-v2 no refuting schedule of the model as it stands is
+   known since degradeIfCurrent; the theorems keep the hypothesis. *)
 From Verif Require Import Life.RunMapInvV2.
 
 Theorem C11_running_implies_map_is_live_v2_partial : forall c acts s,
@@ -308,6 +355,19 @@ Proof.
          (conj stfail_restart_repaired_v1 stfail_restart_repaired_v2))).
 Qed.
 Print Assumptions C11_failed_write_winds_the_run_down_repaired_partial.
+
+(* The default engine as it stands, open finding: a WaitPipeline that overlaps the failing Start is answered nil
+   while the status says Running, the Killed run is still live and its Start has not returned (the publication was
+   rolled back before the run is dead). *)
+Theorem C11_wait_returns_that_runs_result_during_failed_start_v1_refuted :
+  match trace (cfg_v1_io true) init w_wait_during_failed_start_v1 with
+  | Some (ls, s) => status_eqb (s_status s) Running && onat_eqb (s_map s) None && is_live (s_runs s 0)
+                    && has_label (fun l => match l with LRet 1 RetNil => true | _ => false end) ls
+                    && negb (has_label (fun l => match l with LRet 0 _ => true | _ => false end) ls)
+  | None => false
+  end = true.
+Proof. exact wait_during_failed_start_returns_nil_v1. Qed.
+Print Assumptions C11_wait_returns_that_runs_result_during_failed_start_v1_refuted.
 
 (* the failing Start cannot return (and the recovering run's cleanup cannot go on to write Degraded) while the run
    it Killed is still live: the model has no step for it *)
